@@ -136,6 +136,10 @@ func (p *Part) Violate(sig, msg string, c interface{}) {
 		v.N++
 		return
 	}
+	// the case is serialised now: callers may go on mutating what they passed
+	if raw, err := json.Marshal(c); err == nil {
+		c = json.RawMessage(raw)
+	}
 	v := &Violation{Sig: sig, Msg: msg, Case: c, N: 1}
 	p.bySig[sig] = v
 	p.Violations = append(p.Violations, v)
